@@ -183,7 +183,7 @@ def main(tier):
     for i in range(160 if tier == "quick" else 2500):
         text, ex = g.program(depth=rng.choice([1, 2, 3]), nstmts=(2, 6))
         items.append(dict(name=f"prog{i}", text=text, exports=ex, vkey="prog"))
-    items += [it for it in gen.hybrid_programs(random.Random(run.seed + 1), 0) if not it["name"].startswith("se;") and not it["name"].endswith((";arm", ";seq"))]
+    items += [it for it in gen.hybrid_programs(random.Random(run.seed + 1), 0) if not it["name"].startswith(("se;", "loopcond;")) and not it["name"].endswith((";arm", ";seq"))]
     # statement-expressions with 1..4 statements in front of the value (accepted or rejected - but never partly dropped)
     for n in range(1, 5):
         body = " ".join(f"v{k} = v{k} + {k + 1};" for k in range(n))
@@ -192,6 +192,8 @@ def main(tier):
         regs = ["RxV = 1;", "RyyV = 2;", "mem_store_u8(RtV, 3);", "ReV = 4;"][:n]
         items.append(dict(name=f"stmtexprreg{n}", text=f"{{ RddV = ({{ {' '.join(regs)} RsV; }}); }}", vkey="stmtexpr"))
     fam.replay_witnesses()
+    for nm, text in gen.opname_local_texts():
+        items.append(dict(name=f"opname;{nm}", text=text, exports=[(nm, "int32_t")], vkey="opname"))
     for name, text in gen.chained_assignments(random.Random(run.seed + 2), False):
         if name.startswith(("chain4", "chainregs")) or rng.random() < 0.1:
             items.append(dict(name=name, text=text, exports=gen.cast_exports(name), vkey="chain"))
